@@ -11,13 +11,17 @@ CLAIMED = {
          "All histories over a 25-letter alphabet (SELECT/OPERATE/DIRECT_OPERATE/READ/CONFIRM/malformed/broadcast/foreign-master fragments with next/same/skipped sequence numbers, byte-identical retransmission, time advances to select_timeout-1ms/exactly/+1ms, reconnect, link status) up to depth 4 (quick) / 5 (thorough, reduced alphabets), from three starting sequence numbers (wrap), are executed on the real OutstationTask over the production link+transport stack; a reference matcher written from the statement decides for every OPERATE whether it must execute, must be refused, or may do either; callbacks and echoed statuses are compared after every event.",
          "Trusted: the engine's own link/transport/application codecs, tokio's paused clock, the single-threaded driver argument of DESIGN 2.3. Object contents are drawn from four control sets; the u32 fragment counter wrap is out of reach.",
          "DESIGN.md §5 C04", True),
+ "C05": ("model_checking",
+         "bounded-exhaustive exploration of all event histories of the real outstation task against a retransmission oracle (executing-callback counters, byte identity with fragments already sent)",
+         "All histories over an alphabet with one request per function code the outstation executes (20 requests), byte-identical Repeat, right/wrong solicited confirm, unsolicited confirm, database update, confirm timeout (and reconnect in the thorough tier), depth 3-4 quick / 4-5 thorough, with transmit buffers 249/300/2048 (class-0 response spans 3 fragments at 249) and unsolicited reporting off and on (after an ideal null-unsolicited handshake), executed on the real OutstationTask; after each Repeat the oracle requires no executing callback and a byte-identical reply (non-READ), or set membership in the fragments already transmitted (READ echo during a confirm wait, unsolicited retries).",
+         "Trusted: engine codecs, paused clock, DESIGN 2.3. A READ repeated from idle may legitimately be answered afresh (library comment) and is not constrained.",
+         "DESIGN.md §5 C05", True),
 }
 
 NOT_YET = {
  "C01": "designed in DESIGN §5 C01 (hostile-input sweeps + session states); check not built yet",
  "C02": "designed in DESIGN §5 C02 (paired master/outstation simulation); check not built yet",
  "C03": "designed in DESIGN §5 C03 (event ledger); check not built yet",
- "C05": "designed in DESIGN §5 C05; check not built yet",
  "C06": "designed in DESIGN §5 C06; check not built yet",
  "C07": "designed in DESIGN §5 C07; check not built yet",
  "C08": "designed in DESIGN §5 C08; check not built yet",
